@@ -683,3 +683,28 @@ def alpha_same(frag, expected_src: str) -> bool:
     if not isinstance(frag, (list, tuple)) and isinstance(frag, ast.expr) and len(exp) == 1 and isinstance(exp[0], ast.Expr):
         exp = [exp[0].value]
     return alpha_text(frag) == alpha_text(exp)
+
+
+def canon_locals(fn: ast.AST, node: ast.AST) -> str:
+    """Text of `node` with the local variables of `fn` (names stored in fn that are not parameters) replaced by `_v0, _v1,
+    ...` in order of first appearance in `node`: a key built from it does not change when locals are renamed."""
+    import copy
+
+    a = fn.args  # type: ignore[attr-defined]
+    params = {x.arg for x in a.posonlyargs + a.args + a.kwonlyargs} | ({a.vararg.arg} if a.vararg else set()) | ({a.kwarg.arg} if a.kwarg else set())
+    stored = {n.id for n in ast.walk(fn) if isinstance(n, ast.Name) and isinstance(n.ctx, (ast.Store, ast.Del))} - params
+    order: list[str] = []
+    for n in ast.walk(node):
+        if isinstance(n, ast.Name) and n.id in stored and n.id not in order:
+            order.append(n.id)
+    # ast.walk is breadth-first: order by position in the source text instead
+    order.sort(key=lambda nm: min((getattr(n, "lineno", 0), getattr(n, "col_offset", 0)) for n in ast.walk(node) if isinstance(n, ast.Name) and n.id == nm))
+    ren = {nm: f"_v{i}" for i, nm in enumerate(order)}
+
+    class R(ast.NodeTransformer):
+        def visit_Name(self, n: ast.Name):
+            if n.id in ren:
+                return ast.copy_location(ast.Name(id=ren[n.id], ctx=n.ctx), n)
+            return n
+
+    return ast.unparse(R().visit(copy.deepcopy(node)))
